@@ -918,3 +918,294 @@ Proof.
   rewrite (assoc_id_In _ _ _ Hnd P1), (assoc_id_In _ _ _ Hnd P2).
   rewrite app_length. cbn [length]. lia.
 Qed.
+
+(* ------------------------------------------------------------------ *)
+(* styles *)
+
+Fixpoint attr_get (k : bytes) (a : list attr) : option aval :=
+  match a with
+  | [] => None
+  | (k', v) :: a' => if bytes_eqb k k' then Some v else attr_get k a'
+  end.
+
+Definition v_rounded_dashed := Eval compute in (v_rounded ++ 44%N :: v_dashed).
+
+(* critical <-> red and thick, else thin; forever <-> dashed; atomic <-> rounded; the label is
+   the id, a colon and the job's own label *)
+Theorem style_spec inf idf atomic j :
+  let a := style_attrs inf idf atomic j in
+  attr_get k_penwidth a = Some (VStr (if jcrit (inf j) then v_two else v_half)) /\
+  attr_get k_color a = (if jcrit (inf j) then Some (VStr v_red) else None) /\
+  attr_get k_style a = Some (VStr (match atomic, jforever (inf j) with
+                                   | true, true => v_rounded_dashed
+                                   | true, false => v_rounded
+                                   | false, true => v_dashed
+                                   | false, false => []
+                                   end)) /\
+  attr_get k_shape a = Some (VStr v_box) /\
+  attr_get k_label a = Some (VStr (idf j ++ v_colon ++ text_label inf j)).
+Proof.
+  unfold style_attrs, graph_label.
+  destruct atomic, (jforever (inf j)), (jcrit (inf j)); repeat split; reflexivity.
+Qed.
+
+(* ------------------------------------------------------------------ *)
+(* D7: an empty nested scheduler that is a requirement *)
+
+Definition d7_tree : jtree := Sched 0 [Sched 1 []; Atom 2].
+Definition d7_rq : rmap := tab_get_nat [[]; []; [1]].
+Definition d7_inf : infos := fun _ => {| jlabel := None; jcrit := false; jforever := false |}.
+
+Theorem d7_refuted :
+  tree_wf d7_rq d7_tree /\ closed_tree d7_rq d7_tree /\ unique_jobs d7_tree /\ labels_ok d7_inf /\
+  dot_ast d7_rq d7_inf d7_tree = Err ENoExit /\
+  (* the listing is not affected *)
+  (exists L, list_model d7_rq d7_tree = Some L).
+Proof.
+  split; [|split; [|split; [|split; [|split]]]].
+  - split.
+    + cbn [all_levels_ok d7_tree]. repeat split; vm_compute; reflexivity.
+    + cbn [nodup_levels d7_tree]. repeat split; apply nodup_b_spec; reflexivity.
+  - cbn [closed_tree d7_tree]. repeat split; intros j r Hj Hr; cbn in Hj.
+    + destruct Hj as [<-|[<-|[]]]; cbn in Hr; [destruct Hr|destruct Hr as [<-|[]]; cbn; auto].
+    + destruct Hj.
+  - apply nodup_b_spec. reflexivity.
+  - intros j l H. discriminate.
+  - vm_compute. reflexivity.
+  - eexists. vm_compute. reflexivity.
+Qed.
+
+(* ------------------------------------------------------------------ *)
+(* dot_format() succeeds on every acyclic closed tree outside the D7 class *)
+
+(* non-empty, and so is every scheduler nested in it *)
+Fixpoint solid (t : jtree) : Prop :=
+  match t with
+  | Atom _ => True
+  | Sched _ kids =>
+      kids <> [] /\
+      (fix all (ks : list jtree) : Prop :=
+         match ks with [] => True | k :: ks' => solid k /\ all ks' end) kids
+  end.
+
+Lemma solid_Forall ks :
+  (fix all (ks : list jtree) : Prop :=
+     match ks with [] => True | k :: ks' => solid k /\ all ks' end) ks <-> Forall solid ks.
+Proof.
+  induction ks as [|k ks IH]; split; intros H; auto.
+  - destruct H as [H1 H2]. constructor; auto. apply IH. exact H2.
+  - inversion H; subst. split; auto. apply IH. assumption.
+Qed.
+
+(* every nested scheduler that has or is a requirement is solid *)
+Fixpoint linked_solid (rq : rmap) (t : jtree) : Prop :=
+  match t with
+  | Atom _ => True
+  | Sched _ kids =>
+      (forall k, In k kids ->
+         (rq (tid k) <> [] \/ exists k', In k' kids /\ In (tid k) (rq (tid k'))) -> solid k) /\
+      (fix all (ks : list jtree) : Prop :=
+         match ks with [] => True | k :: ks' => linked_solid rq k /\ all ks' end) kids
+  end.
+
+Lemma linked_solid_Forall rq ks :
+  (fix all (ks : list jtree) : Prop :=
+     match ks with [] => True | k :: ks' => linked_solid rq k /\ all ks' end) ks
+  <-> Forall (linked_solid rq) ks.
+Proof.
+  induction ks as [|k ks IH]; split; intros H; auto.
+  - destruct H as [H1 H2]. constructor; auto. apply IH. exact H2.
+  - inversion H; subst. split; auto. apply IH. assumption.
+Qed.
+
+Lemma middle_In l : l <> [] -> exists c, middle l = Some c /\ In c l.
+Proof.
+  intros Hne. destruct l as [|a l]; [congruence|]. unfold middle.
+  eexists. split; [reflexivity|]. apply nth_In.
+  cbn [length]. rewrite Nat.sub_1_r. cbn [pred].
+  destruct (length l) as [|n] eqn:E; [cbn; lia|].
+  pose proof (Nat.lt_div2 (S n) ltac:(lia)). lia.
+Qed.
+
+Lemma entries_nonempty rq ms : ms <> [] -> NoDup ms -> snd (topo rq ms) = TOk ->
+  entries rq ms <> [].
+Proof.
+  intros Hne Hnd Hok. destruct (topo_complete rq ms Hnd Hok) as [Hp Hord].
+  destruct (fst (topo rq ms)) as [|j l2] eqn:E.
+  - apply Permutation_nil in Hp. congruence.
+  - assert (Hj : rq j = []).
+    { destruct (rq j) as [|r l] eqn:Er; [reflexivity|].
+      exfalso. apply (Hord [] j l2 eq_refl r). rewrite Er. left. reflexivity. }
+    intro En. assert (Hin : In j (entries rq ms)).
+    { apply filter_In. split; [apply (Permutation_in _ Hp); left; reflexivity|]. rewrite Hj. reflexivity. }
+    rewrite En in Hin. destruct Hin.
+Qed.
+
+Lemma last_app_cons_gen {A} (a : list A) x l d : last (a ++ x :: l) d = last (x :: l) d.
+Proof.
+  induction a as [|y a IH]; [reflexivity|].
+  change ((y :: a) ++ x :: l) with (y :: (a ++ x :: l)).
+  destruct (a ++ x :: l) eqn:E; [destruct a; discriminate|]. rewrite <- IH. reflexivity.
+Qed.
+
+Lemma last_in_tail {A} (a : list A) k b d : In (last (a ++ k :: b) d) (k :: b).
+Proof.
+  rewrite last_app_cons_gen.
+  revert k. induction b as [|x b IH]; intros k; [left; reflexivity|].
+  right. change (last (k :: x :: b) d) with (last (x :: b) d). apply IH.
+Qed.
+
+Lemma exits_nonempty rq inf ms : ms <> [] -> NoDup ms -> snd (topo rq ms) = TOk ->
+  exit_cands rq inf ms <> [].
+Proof.
+  intros Hne Hnd Hok. destruct (topo_complete rq ms Hnd Hok) as [Hp Hord].
+  assert (Hno : NoDup (fst (topo rq ms))) by (apply (Permutation_NoDup (Permutation_sym Hp)); exact Hnd).
+  destruct (@exists_last _ (fst (topo rq ms))) as (l1 & j & E).
+  { intro En. rewrite En in Hp. apply Permutation_nil in Hp. congruence. }
+  assert (Hjms : In j ms).
+  { apply (Permutation_in _ Hp). rewrite E. apply in_app_iff. right. left. reflexivity. }
+  assert (Hns : has_succ rq ms j = false).
+  { unfold has_succ. apply not_true_iff_false. intro Hex. apply existsb_exists in Hex.
+    destruct Hex as (k & Hk & Hm). apply memb_In in Hm.
+    apply (Permutation_in _ (Permutation_sym Hp)) in Hk. apply in_split in Hk.
+    destruct Hk as (a & b & Ek). specialize (Hord a k b Ek j Hm).
+    rewrite Ek in Hno. apply NoDup_app_inv in Hno. destruct Hno as (_ & _ & Hd).
+    apply (Hd j Hord).
+    pose proof (last_in_tail a k b 0) as Hl. rewrite <- Ek, E, last_last in Hl. exact Hl. }
+  assert (Hin : In j (exits rq inf false ms)).
+  { apply filter_In. split; [exact Hjms|]. rewrite Hns. reflexivity. }
+  unfold exit_cands. destruct (exits rq inf true ms) as [|x l]; [|discriminate].
+  intro En. rewrite En in Hin. destruct Hin.
+Qed.
+
+Lemma solid_kids i kids : solid (Sched i kids) -> kids <> [] /\ Forall solid kids.
+Proof. cbn [solid]. intros [H1 H2]. split; [exact H1|]. apply solid_Forall. exact H2. Qed.
+
+Lemma map_nonempty {A B} (f : A -> B) l : l <> [] -> map f l <> [].
+Proof. destruct l; [congruence|discriminate]. Qed.
+
+Lemma mid_entry_total rq t : tree_wf rq t -> solid t -> exists x, mid_entry rq t = Ok x.
+Proof.
+  induction t as [i|i kids IH] using jtree_ind2; intros Hwf Hs; [eexists; reflexivity|].
+  destruct (tree_wf_kids _ _ _ Hwf) as (Hok & Hnd & Hkids).
+  destruct (solid_kids _ _ Hs) as [Hne Hsk].
+  cbn [mid_entry].
+  destruct (middle_In _ (entries_nonempty rq _ (map_nonempty tid _ Hne) Hnd Hok)) as (c & -> & Hc).
+  apply filter_In in Hc. destruct Hc as [Hc _].
+  destruct (find_kid_some kids c Hc) as [k Ef]. rewrite lookup_app_find, Ef. cbn [option_map flat_res].
+  destruct (find_kid_In _ _ _ Ef) as [Hin _]. rewrite Forall_forall in *. apply IH; auto.
+Qed.
+
+Lemma exit_cands_incl rq inf ms c : In c (exit_cands rq inf ms) -> In c ms.
+Proof.
+  unfold exit_cands. destruct (exits rq inf true ms) as [|x l] eqn:E.
+  - intros H. apply filter_In in H. tauto.
+  - rewrite <- E. intros H. apply filter_In in H. tauto.
+Qed.
+
+Lemma mid_exit_total rq inf t : tree_wf rq t -> solid t -> exists x, mid_exit rq inf t = Ok x.
+Proof.
+  induction t as [i|i kids IH] using jtree_ind2; intros Hwf Hs; [eexists; reflexivity|].
+  destruct (tree_wf_kids _ _ _ Hwf) as (Hok & Hnd & Hkids).
+  destruct (solid_kids _ _ Hs) as [Hne Hsk].
+  cbn [mid_exit].
+  destruct (middle_In _ (exits_nonempty rq inf _ (map_nonempty tid _ Hne) Hnd Hok)) as (c & -> & Hc).
+  apply exit_cands_incl in Hc.
+  destruct (find_kid_some kids c Hc) as [k Ef]. rewrite lookup_app_find, Ef. cbn [option_map flat_res].
+  destruct (find_kid_In _ _ _ Ef) as [Hin _]. rewrite Forall_forall in *. apply IH; auto.
+Qed.
+
+Lemma rmapM_total {A B} (f : A -> res B) l :
+  (forall a, In a l -> exists b, f a = Ok b) -> exists bs, rmapM f l = Ok bs.
+Proof.
+  induction l as [|a l IH]; intros H; [eexists; reflexivity|].
+  destruct (H a (or_introl eq_refl)) as [b Hb].
+  destruct IH as [bs Hbs]; [intros x Hx; apply H; right; exact Hx|].
+  cbn [rmapM]. rewrite Hb, Hbs. eexists. reflexivity.
+Qed.
+
+Lemma rconcat_total {A B} (f : A -> res (list B)) l :
+  (forall a, In a l -> exists b, f a = Ok b) -> exists bs, rconcat (map f l) = Ok bs.
+Proof.
+  induction l as [|a l IH]; intros H; [eexists; reflexivity|].
+  destruct (H a (or_introl eq_refl)) as [b Hb].
+  destruct IH as [bs Hbs]; [intros x Hx; apply H; right; exact Hx|].
+  cbn [map rconcat]. rewrite Hb, Hbs. eexists. reflexivity.
+Qed.
+
+Lemma body_total rq inf idf t : tree_wf rq t -> closed_tree rq t -> linked_solid rq t ->
+  exists b, body rq inf idf t = Ok b.
+Proof.
+  induction t as [i|i kids IH] using jtree_ind2; intros Hwf Hcl Hls; [eexists; reflexivity|].
+  pose proof (order_perm _ _ _ Hwf) as Hp.
+  destruct (tree_wf_kids _ _ _ Hwf) as (Hok & Hnd & Hkids).
+  cbn [closed_tree] in Hcl. destruct Hcl as [Hc Hcl]. apply closed_tree_Forall in Hcl.
+  cbn [linked_solid] in Hls. destruct Hls as [Hl Hls]. apply linked_solid_Forall in Hls.
+  cbn [body]. destruct (topo rq (map tid kids)) as [order r]. cbn [fst snd] in *. subst r.
+  cbn [tres_eqb]. apply rconcat_total. intros j Hj.
+  apply (Permutation_in _ Hp) in Hj. destruct (find_kid_some kids j Hj) as [k Ef].
+  destruct (find_kid_In _ _ _ Ef) as [Hin Ht].
+  rewrite Forall_forall in *.
+  unfold job_stmts. rewrite lookup_app_find, Ef. cbn [option_map flat_res].
+  assert (Ho : exists s, own_stmt inf idf (body rq inf idf) k = Ok s).
+  { destruct k as [a|a ks]; [eexists; reflexivity|].
+    cbn [own_stmt]. destruct (IH _ Hin (Hkids _ Hin) (Hcl _ Hin) (Hls _ Hin)) as [bk ->].
+    eexists. reflexivity. }
+  destruct Ho as [s ->].
+  assert (He : exists es, edge_stmts rq inf idf kids k = Ok es).
+  { unfold edge_stmts. apply rmapM_total. intros r Hr.
+    assert (Hrm : In r (map tid kids)) by (apply (Hc (tid k) r); [apply in_map; exact Hin|exact Hr]).
+    destruct (find_kid_some kids r Hrm) as [kr Efr]. destruct (find_kid_In _ _ _ Efr) as [Hinr Htr].
+    unfold edge_stmt. rewrite Efr.
+    assert (Sk : solid k).
+    { apply Hl; auto. left. intro E. rewrite E in Hr. destruct Hr. }
+    assert (Skr : solid kr).
+    { apply Hl; auto. right. exists k. split; [exact Hin|]. rewrite Htr. exact Hr. }
+    destruct (mid_entry_total rq k (Hkids _ Hin) Sk) as [b Eb].
+    destruct (mid_exit_total rq inf kr (Hkids _ Hinr) Skr) as [a Ea].
+    destruct k as [j0|j0 ks0], kr as [r0|r0 ks1]; try rewrite Ea; try rewrite Eb; cbn [rbind];
+      eexists; reflexivity. }
+  destruct He as [es ->]. eexists. reflexivity.
+Qed.
+
+Lemma tree_size_kid k kids i : In k kids -> tree_size k < tree_size (Sched i kids).
+Proof.
+  intros H. cbn [tree_size]. induction kids as [|x kids IH]; [destruct H|].
+  cbn [fold_right]. destruct H as [->|H]; [lia|]. specialize (IH H). lia.
+Qed.
+
+Lemma set_ids_fuel_total rq : forall fuel t start, tree_size t <= fuel -> tree_wf rq t ->
+  exists ids nxt, set_ids_fuel fuel rq t start = Some (ids, nxt).
+Proof.
+  induction fuel as [|f IH]; intros t start Hsz Hwf; [destruct t; cbn in Hsz; lia|].
+  rewrite set_ids_fuel_S. destruct t as [a|a kids].
+  - cbn. eexists. eexists. reflexivity.
+  - pose proof (order_perm _ _ _ Hwf) as Hp.
+    destruct (tree_wf_kids _ _ _ Hwf) as (Hok & Hnd & Hkids).
+    cbn [kids_of]. destruct (topo rq (map tid kids)) as [order r]. cbn [fst snd] in *. subst r.
+    cbn [tres_eqb].
+    assert (G : forall ord, incl ord (map tid kids) -> forall i acc,
+              exists ids nxt, ids_loop (set_ids_fuel f rq) kids ord i acc = Some (ids, nxt)).
+    { induction ord as [|j ord IHo]; intros Hi i acc; [eexists; eexists; reflexivity|].
+      cbn [ids_loop]. destruct (find_kid_some kids j (Hi j (or_introl eq_refl))) as [k Ef].
+      rewrite Ef. destruct (find_kid_In _ _ _ Ef) as [Hin _].
+      assert (Hi' : incl ord (map tid kids)) by (intros x Hx; apply Hi; right; exact Hx).
+      destruct k as [b|b ks]; [apply IHo; exact Hi'|].
+      rewrite Forall_forall in Hkids.
+      destruct (IH (Sched b ks) (S i)) as (sub & i' & ->).
+      - pose proof (tree_size_kid _ _ a Hin). lia.
+      - apply Hkids. exact Hin.
+      - apply IHo. exact Hi'. }
+    apply G. intros x Hx. apply (Permutation_in _ Hp). exact Hx.
+Qed.
+
+(* the D7 class is the only obstacle *)
+Theorem dot_total rq inf t : tree_wf rq t -> closed_tree rq t -> linked_solid rq t ->
+  exists g, dot_ast rq inf t = Ok g.
+Proof.
+  intros Hwf Hcl Hls. unfold dot_ast, set_ids.
+  destruct (set_ids_fuel_total rq (tree_size t) t 1 (le_n _) Hwf) as (ids & nxt & ->).
+  destruct (body_total rq inf (fun j => fmt (id_width (tree_size t - 1)) (assoc_id ids j)) t Hwf Hcl Hls)
+    as [b ->].
+  eexists. reflexivity.
+Qed.
